@@ -763,8 +763,8 @@ def run(tier, is_known):
         plan = [("T1", FACTORS, None, 8, 600000, 300), ("T2", FACTORS, None, 8, 600000, 200),
                 ("T4", T4_FACTORS, None, 7, 300000, 120), ("T4", ["default"], MENU_T4_DEFAULT, 7, 100000, 60)]
     else:
-        plan = [("T1", FACTORS, None, 5, 60000, 16), ("T2", FACTORS, None, 5, 60000, 10),
-                ("T4", T4_FACTORS, None, 4, 30000, 6), ("T4", ["default"], MENU_T4_DEFAULT, 4, 30000, 6)]
+        plan = [("T1", FACTORS, None, 5, 60000, 120), ("T2", FACTORS, None, 5, 60000, 120),
+                ("T4", T4_FACTORS, None, 4, 30000, 120), ("T4", ["default"], MENU_T4_DEFAULT, 4, 30000, 120)]
     viols = []
     per = []
     samples = []
